@@ -9,7 +9,11 @@ use std::time::Instant;
 
 use serde_json::{json, Value};
 
-pub const VERIF_DIR: &str = "/verif";
+/// Root of the verification tree (set by the `check` wrapper; a snapshot run
+/// by `vp run` writes its evidence and replays into the snapshot).
+pub fn verif_dir() -> String {
+    std::env::var("VERIF_DIR").unwrap_or_else(|_| "/verif".to_string())
+}
 
 #[derive(Clone, Copy, Debug, PartialEq, Eq)]
 pub enum Tier {
@@ -237,7 +241,7 @@ pub fn seed() -> u64 {
 }
 
 fn known_findings() -> Vec<Value> {
-    let p = format!("{}/known_findings.json", VERIF_DIR);
+    let p = format!("{}/known_findings.json", verif_dir());
     match std::fs::read_to_string(&p) {
         Ok(s) => match serde_json::from_str::<Value>(&s) {
             Ok(v) => v["findings"].as_array().cloned().unwrap_or_default(),
@@ -357,10 +361,10 @@ pub fn finish_run(
             None => new_violations.push(v),
         }
     }
-    let _ = std::fs::create_dir_all(format!("{}/replays", VERIF_DIR));
+    let _ = std::fs::create_dir_all(format!("{}/replays", verif_dir()));
     let mut lines = vec![];
     for (i, v) in new_violations.iter().enumerate() {
-        let path = format!("{}/replays/{}-{}-{}.json", VERIF_DIR, id, tier.name(), i);
+        let path = format!("{}/replays/{}-{}-{}.json", verif_dir(), id, tier.name(), i);
         let body = json!({"property": id, "key": v.key, "message": v.msg, "case": v.case});
         std::fs::write(&path, serde_json::to_string_pretty(&body).unwrap()).ok();
         if i < 10 {
@@ -430,8 +434,8 @@ pub fn finish_run(
         "violations": new_violations.len(),
         "known_findings_hit": known_hits.len(),
     });
-    let _ = std::fs::create_dir_all(format!("{}/evidence", VERIF_DIR));
-    let evp = format!("{}/evidence/{}.json", VERIF_DIR, id);
+    let _ = std::fs::create_dir_all(format!("{}/evidence", verif_dir()));
+    let evp = format!("{}/evidence/{}.json", verif_dir(), id);
     if let Err(e) = std::fs::write(&evp, serde_json::to_string_pretty(&ev).unwrap() + "\n") {
         eprintln!("machinery: cannot write {}: {}", evp, e);
         std::process::exit(2);
